@@ -158,6 +158,7 @@ type aofRun struct {
 	err    error
 	items  []sItem
 	pos    int // next item to release
+	split  bool // every item arrives in two reads (cut in the middle), the replay quiescent in between
 }
 
 func (e *aofEnv) start(ro *RedisOutput, items []sItem, startOff int64) *aofRun {
@@ -188,7 +189,13 @@ func (r *aofRun) poll() {
 
 func (r *aofRun) release(n int) {
 	for k := 0; k < n && r.pos < len(r.items); k++ {
-		r.g.Release(r.items[r.pos].Raw)
+		raw := r.items[r.pos].Raw
+		if r.split && len(raw) > 1 {
+			r.g.Release(raw[:len(raw)/2])
+			aofWait()
+			raw = raw[len(raw)/2:]
+		}
+		r.g.Release(raw)
 		r.pos++
 	}
 	r.env.events++
